@@ -227,7 +227,7 @@ theorem C15_terminates (c : Cfg σ ρ) (hcap : 0 < c.cap) (s : State σ ρ) (h :
     (he : s.eof = true) :
     ∃ ls s', (∀ l ∈ ls, l.internal = true) ∧ run c ls s = some s' ∧
       (s'.reader = .done ∨ s'.reader = .panicked) :=
-  terminates hcap s h he
+  terminates hcap s h (Or.inl he)
 
 theorem eof_run {c : Cfg σ ρ} : ∀ (ls : List Label) (s s' : State σ ρ), s.eof = true →
     run c ls s = some s' → s'.eof = true :=
@@ -260,7 +260,7 @@ theorem C15_complete_run_correct (c : Cfg σ ρ) (hcap : 0 < c.cap) (s s' : Stat
 
 /-- three lines `x\n`, `y\n`, `z` (no final newline); the 1st yields row "a", the 2nd nothing,
 the 3rd row "b"; channel capacity 2 -/
-def exCfg : Cfg Nat Bytes := tableCfg [some [97], none, some [98]] [] false false 2
+def exCfg : Cfg Nat Bytes := tableCfg [some [97], none, some [98]] [] false 2
 
 def exSched : List Label :=
   [.feed [120, 10, 121], .readLine, .send, .absorb 1, .recv, .feed [10, 122], .write, .readLine,
